@@ -249,6 +249,9 @@ func TestVerifC10ScramblesuitCuts(t *testing.T) {
 		}
 		if msg := vf10RunCut(cs); msg != "" {
 			fmt.Printf("VERIF-REPLAY-CASE: %s\n", rc)
+			if vf10Unstoppable(msg) {
+				vf10Abort("TestVerifC10ScramblesuitCuts", msg)
+			}
 			t.Fatalf("%s", msg)
 		}
 		return
@@ -325,6 +328,9 @@ func TestVerifC10ScramblesuitCuts(t *testing.T) {
 		if msg := vf10RunCut(cs); msg != "" {
 			js, _ := json.Marshal(cs)
 			fmt.Printf("VERIF-REPLAY-CASE: %s\n", js)
+			if vf10Unstoppable(msg) {
+				vf10Abort("TestVerifC10ScramblesuitCuts", msg+"\n  case "+string(js))
+			}
 			t.Fatalf("%s\n  case %s", msg, js)
 		}
 		evals++
